@@ -103,7 +103,16 @@ def run_streams(pid, cfg, tier, seed, extra_round=0):
             tb = traceback.extract_tb(ex.__traceback__)
             inner = tb[-1].filename if tb else ""
             through = any("/opfython/" in fr.filename for fr in tb)
-            if "/opfython/" in inner or (through and isinstance(ex, (IndexError, KeyError, AttributeError, ValueError, TypeError,
+            nonfinite = isinstance(ex, ValueError) and "non-finite cost" in str(ex)
+            if nonfinite:
+                # the encoder of the line protocol met a NaN / infinity among values the code under test handed back where the
+                # property's domain has finite ones (costs, densities, distances of finite data)
+                res.violations.append({"property": pid, "what": f"stream {key}: the code under test produced a non-finite cost / density / "
+                                       f"distance on finite generated data ({os.path.basename(tb[-2].filename) if len(tb) > 1 else '?'}:"
+                                       f"{tb[-2].lineno if len(tb) > 1 else '?'})",
+                                       "replay": {"stream": key, "seed_key": res.seed_key,
+                                                  "traceback": traceback.format_exception(type(ex), ex, ex.__traceback__)[-6:]}})
+            elif "/opfython/" in inner or (through and isinstance(ex, (IndexError, KeyError, AttributeError, ValueError, TypeError,
                                                                        ZeroDivisionError))):
                 res.violations.append({"property": pid, "what": f"stream {key}: the code under test raised {type(ex).__name__}: {ex} "
                                        f"at {os.path.basename(inner)}:{tb[-1].lineno} on a generated in-domain case",
